@@ -192,6 +192,31 @@ pub fn mutants(kind: &str, base: &[u8], seed: u64, thorough: bool) -> Vec<(Strin
     out
 }
 
+/// Large *valid* structures (many dimensions, many attributes): the number of rights they span
+/// exceeds 2^24, 2^32, 2^64 — whatever a reader computes from the counts must not overflow.
+fn large_structs(template: &WStruct) -> Vec<(String, WStruct)> {
+    let mut out = vec![];
+    for (nd, na) in [(64usize, 1usize), (70, 1), (16, 15), (8, 255), (40, 2), (2, 300), (24, 1), (33, 3)] {
+        let mut id = 0u64;
+        let mut dims = vec![];
+        for d in 0..nd {
+            let mut attrs = vec![];
+            for a in 0..na {
+                attrs.push(wire::WAttr { name: format!("a{a}").into_bytes(), id, hint: (a % 2) as u64, status: 0 });
+                id += 1;
+            }
+            dims.push(wire::WDim { name: format!("d{d}").into_bytes(), ordered: (d % 2) as u64, attrs });
+        }
+        let mut m = template.clone();
+        m.dims = dims;
+        if m.next_id.is_some() {
+            m.next_id = Some(id);
+        }
+        out.push((format!("structured-large-valid-structure-{nd}x{na}"), m));
+    }
+    out
+}
+
 /// Mutants built through the wire writer: the framing stays valid, the content is degenerate.
 fn structured(kind: &str, base: &[u8]) -> Vec<(String, Vec<u8>)> {
     let mut out: Vec<(String, Vec<u8>)> = vec![];
@@ -294,6 +319,11 @@ fn structured(kind: &str, base: &[u8]) -> Vec<(String, Vec<u8>)> {
                 let mut m = w.clone();
                 m.structure.dims.clear();
                 out.push(("structured-empty-structure".into(), m.write()));
+                for (name, st) in large_structs(&w.structure) {
+                    let mut m = w.clone();
+                    m.structure = st;
+                    out.push((name, m.write()));
+                }
             }
         }
         "msk" => {
@@ -318,10 +348,20 @@ fn structured(kind: &str, base: &[u8]) -> Vec<(String, Vec<u8>)> {
                 let mut m = w.clone();
                 m.structure.dims.clear();
                 out.push(("structured-empty-structure".into(), m.write()));
+                for (name, st) in large_structs(&w.structure) {
+                    let mut m = w.clone();
+                    m.structure = st;
+                    out.push((name, m.write()));
+                }
             }
         }
         "structure" => {
             if let Ok(w) = WStruct::parse(base) {
+                for (name, m) in large_structs(&w) {
+                    let mut o = vec![];
+                    m.write(&mut o);
+                    out.push((name, o));
+                }
                 let mut m = w.clone();
                 m.dims.clear();
                 out.push(("structured-no-dimensions".into(), {
